@@ -345,10 +345,19 @@ def s4(ck: Check) -> None:
                 it = loops[0].iter if loops else None
                 sd_ = fm.single_def(it.id, fm.cfg.loop_header[loops[0]]) if isinstance(it, ast.Name) else None
                 src = sd_[1] if sd_ else it
-                if not (isinstance(src, ast.Call) and callee_name(src) == "product" and "range(2)" in text(src) and "len(sources)" in text(src)):
+                X = None
+                if isinstance(src, ast.Call) and callee_name(src) == "product" and src.args and text(src.args[0]) == "range(2)":
+                    rep = next((k.value for k in src.keywords if k.arg == "repeat"), None)
+                    if isinstance(rep, ast.Call) and callee_name(rep) == "len" and rep.args and isinstance(rep.args[0], ast.Name):
+                        X = rep.args[0].id
+                zipped = X is not None and loops and any(
+                    isinstance(c_, ast.Call) and callee_name(c_) == "zip" and len(c_.args) == 2 and text(c_.args[0]) == X
+                    and text(c_.args[1]) == text(loops[0].target) for c_ in ast.walk(loops[0]))
+                if not zipped:
                     probs.append("children of the shortcut are not all 2^k valuations of the source variables")
-                pc = fm.pc(g[0].cfgn)
-                if not logic.implies(pc, logic.Lt("0", "len(sources)")) and not logic.implies(pc, logic.Not(logic.Eq("len(sources)", "0"))):
+                pc = fm.pc(g[0].cfgn, numeric=set())
+                LX = f"len({X})"
+                if X is None or (not logic.implies(pc, logic.Lt("0", LX)) and not logic.implies(pc, logic.Not(logic.Eq(LX, "0")))):
                     probs.append("the shortcut may run without any source variable (the node would be marked attractor-free and "
                                  "get itself as only child)")
             ck.ob("S4", fm, e.stmt, not probs, "; ".join(probs) if probs else
@@ -541,4 +550,4 @@ def s7(ck: Check) -> None:
                   f"`{e.nid}` is marked expanded with only the successors copied from one source-SCC sub-diagram, but it is "
                   f"marked attractor-free only conditionally (path reaches {esc}): when the sub-diagram node has a "
                   f"motif-avoidant attractor, the seeds later computed for `{e.nid}` are also found in other nodes that are "
-                  f"not among its partial successors (one attractor, two seeds)", key=f"mark expanded: {e.diag}/{e.nid}")
+                  f"not among its partial successors (one attractor, two seeds)", key="mark expanded: " + ("a node copied in a loop" if fm.cfg.enclosing_loops(e.cfgn) else "the attachment node"))
